@@ -8,7 +8,7 @@
         [t |-> "fld", v |-> <<>>,      f |-> name, c |-> converter]
    (adjacent literal chunks are merged and empty ones dropped, so equal records <=> equal
    template text).  A converter is [k, nd, hasLo, lo, hasHi, hi, fin]: k is the converter
-   identifier ("" = none, "int", "float", "uuid", "dt", "path"), nd = required number of
+   identifier ("" = none, "int", "float", "uuid", "dt", "path", or a user-defined one, see CT.multi), nd = required number of
    digits (-1 = any), lo/hi = inclusive bounds (whole numbers, also for float), fin = finite floats only.
 
    What a converter's *parser* accepts (CPython int(), float(), uuid.UUID(), strptime()) is not
@@ -19,16 +19,29 @@
         CT.float[s] = [n |-> floor(x), n2 |-> ceil(x), nan |-> isnan(x), fin |-> isfinite(x), v |-> chars of str(x)]
                       where x = float(s) succeeds (infinities: n = n2 = the largest / smallest integer)
         CT.uuid[s], CT.dt[s] likewise (v = str() of the value)
+        CT.multi[k][ListKey(l)] = [ok, ty, v]   for every USER-DEFINED converter k that consumes multiple segments
+                      (class attribute CONSUME_MULTIPLE_SEGMENTS; registered through router_options.converters):
+                      what the converter's own convert() answers when it is handed the LIST l of the remaining
+                      path segments -- ok = FALSE is a veto (None), else ty/v = type and str() of the value.
+                      DOMAIN CT.multi is the set of these converters: being one is what matters to add_route.
    The converter *rules* on top of the parser (surrounding blanks, digit count, bounds,
-   finiteness) are specified below. *)
+   finiteness) are specified below.
+
+   Line feed.  A multi-field segment is matched the way the router's regular expression for it
+   matches ("^" chunk/field ... "$", a field = ".+", neither DOTALL nor MULTILINE): a field never
+   takes a line feed, and the end of the pattern is reached at the end of the segment OR just before
+   a line feed that is its last character (which then belongs to no field).  Carriage return is an
+   ordinary character.  Literal and single-field segments compare/capture the whole segment. *)
 EXTENDS Bytes
 
 CONSTANT CT
 
-Blank == {" ", "\t"}
+LF    == IF "lf" \in DOMAIN CT THEN CT.lf ELSE "\n"     \* CT.lf: the line feed of an instance whose characters are not strings (Dispatch: code points)
+Blank == {" ", "\t", "\n", "\r", "\f"}          \* what str.strip() removes / what a template may not contain (among the characters in use)
 
 NoConv == [k |-> "", nd |-> -1, hasLo |-> FALSE, lo |-> 0, hasHi |-> FALSE, hi |-> 0, fin |-> TRUE]
-KnownConverters == {"int", "float", "uuid", "dt", "path"}
+MultiSeg == {"path"} \cup DOMAIN CT.multi          \* converters that consume the rest of the path
+KnownConverters == {"int", "float", "uuid", "dt"} \cup MultiSeg
 
 (* ---- abstract field values: the type of the Python object and the characters of its str() ---- *)
 Val(ty, v) == [ty |-> ty, v |-> v]
@@ -57,6 +70,22 @@ Convert(c, s) ==
       [] c.k = "dt"   -> IF s \in DOMAIN CT.dt THEN Val("dt", CT.dt[s].v) ELSE None
       [] OTHER -> None
 
+(* the value of a trailing multi-segment field for the remaining segments `rest` (a non-empty list), or None:
+   the built-in path converter joins them with "/" and never vetoes; a user-defined one is asked (CT.multi),
+   with the list itself *)
+RECURSIVE JoinSlash(_)
+JoinSlash(segs) == IF segs = <<>> THEN <<>>
+                   ELSE IF Len(segs) = 1 THEN segs[1]
+                   ELSE segs[1] \o <<"/">> \o JoinSlash(Tail(segs))
+RECURSIVE Str(_)
+Str(cs) == IF cs = <<>> THEN "" ELSE cs[1] \o Str(Tail(cs))        \* the characters as one string (TLC: \o on strings)
+ListKey(rest) == Str(JoinSlash(rest))                              \* names the LIST rest in CT.multi (see RouterUniverse)
+ConvertRest(c, rest) ==
+    IF c.k = "path" THEN Val("str", JoinSlash(rest))
+    ELSE IF c.k \in DOMAIN CT.multi
+         THEN LET r == CT.multi[c.k][ListKey(rest)] IN IF r.ok THEN Val(r.ty, r.v) ELSE None
+    ELSE None
+
 (* ---- shape of a template segment ---- *)
 IsFld(it)   == it.t = "fld"
 FieldsOf(ts) == SelectSeq(ts.items, IsFld)                       \* field items, left to right
@@ -66,8 +95,8 @@ Kind(ts) == IF FieldsOf(ts) = <<>> THEN "lit"                    \* literal text
             ELSE "cx"                                            \* multi-field / field with literal text
 Rank(ts) == CASE Kind(ts) = "lit" -> 0 [] Kind(ts) = "cx" -> 1 [] OTHER -> 2
 LitText(ts) == Concat([i \in DOMAIN ts.items |-> ts.items[i].v])
-HasPathField(ts) == \E i \in DOMAIN ts.items : IsFld(ts.items[i]) /\ ts.items[i].c.k = "path"
-IsPathSeg(ts) == Kind(ts) = "var" /\ ts.items[1].c.k = "path"    \* swallows the rest of the path
+HasPathField(ts) == \E i \in DOMAIN ts.items : IsFld(ts.items[i]) /\ ts.items[i].c.k \in MultiSeg
+IsPathSeg(ts) == Kind(ts) = "var" /\ ts.items[1].c.k \in MultiSeg    \* swallows the rest of the path
 (* what is left of a multi-field segment when every field expression is replaced by "v" *)
 Shape(ts) == Concat([i \in DOMAIN ts.items |-> IF IsFld(ts.items[i]) THEN <<"v">> ELSE ts.items[i].v])
 
@@ -77,17 +106,22 @@ Yes(caps) == [ok |-> TRUE, caps |-> caps]
 Cap(f, val) == [f |-> f, ty |-> val.ty, v |-> val.v]
 
 (* Raw split of s over the items i.. from position pos (0-based): a literal chunk must be next;
-   a field takes the LONGEST non-empty text such that the rest still matches (leftmost field
-   first) -- a greedy ".+" with backtracking.  Captures are [f, c, s] with the raw text. *)
+   a field takes the LONGEST non-empty text WITHOUT A LINE FEED such that the rest still matches
+   (leftmost field first) -- a greedy ".+" with backtracking; the end ("$") is the end of s or the
+   position of a final line feed.  Captures are [f, c, s] with the raw text.
+   LFBlind = TRUE is the wrong design "a field takes anything, the end is the end" (vacuity switch). *)
+LFBlind == FALSE
+NoLF(x) == LFBlind \/ \A j \in DOMAIN x : x[j] # LF
+AtEnd(s, pos) == pos = Len(s) \/ (~LFBlind /\ pos = Len(s) - 1 /\ s[Len(s)] = LF)
 RECURSIVE Split(_, _, _, _)
 Split(its, i, s, pos) ==
-    IF i > Len(its) THEN (IF pos = Len(s) THEN Yes(<<>>) ELSE No)
+    IF i > Len(its) THEN (IF AtEnd(s, pos) THEN Yes(<<>>) ELSE No)
     ELSE IF ~IsFld(its[i])
          THEN (IF IsAt(s, its[i].v, pos) THEN Split(its, i + 1, s, pos + Len(its[i].v)) ELSE No)
          ELSE LET RECURSIVE TryEnd(_)
                   TryEnd(e) == IF e <= pos THEN No
                                ELSE LET r == Split(its, i + 1, s, e)
-                                    IN  IF r.ok THEN Yes(<<[f |-> its[i].f, c |-> its[i].c, s |-> Slice(s, pos, e)]>> \o r.caps)
+                                    IN  IF NoLF(Slice(s, pos, e)) /\ r.ok THEN Yes(<<[f |-> its[i].f, c |-> its[i].c, s |-> Slice(s, pos, e)]>> \o r.caps)
                                         ELSE TryEnd(e - 1)
               IN  TryEnd(Len(s))
 
@@ -107,9 +141,16 @@ MatchK(k, ts, s) ==
                      ELSE Yes([j \in DOMAIN vals |-> Cap(r.caps[j].f, vals[j])])
 Match(ts, s) == MatchK(Kind(ts), ts, s)
 
-(* the value of a trailing path field: the remaining segments joined by "/" *)
-RECURSIVE JoinSlash(_)
-JoinSlash(segs) == IF segs = <<>> THEN <<>>
-                   ELSE IF Len(segs) = 1 THEN segs[1]
-                   ELSE segs[1] \o <<"/">> \o JoinSlash(Tail(segs))
+(* What a split is, said without the search: the captured texts are non-empty and free of line feeds, and
+   put back between the literal chunks they give the segment, or the segment without its final line feed. *)
+RECURSIVE Rebuild(_, _, _, _)
+Rebuild(its, i, caps, j) ==
+    IF i > Len(its) THEN <<>>
+    ELSE IF IsFld(its[i]) THEN caps[j].s \o Rebuild(its, i + 1, caps, j + 1)
+    ELSE its[i].v \o Rebuild(its, i + 1, caps, j)
+SplitSound(ts, s) ==
+    LET r == Split(ts.items, 1, s, 0) IN
+    r.ok => /\ Len(r.caps) = Len(FieldsOf(ts))
+            /\ \A j \in DOMAIN r.caps : r.caps[j].s # <<>> /\ \A k \in DOMAIN r.caps[j].s : r.caps[j].s[k] # LF
+            /\ LET whole == Rebuild(ts.items, 1, r.caps, 1) IN whole = s \/ whole \o <<LF>> = s
 =========================================================================
